@@ -54,6 +54,12 @@ def node38(spec):
     raise AssertionError(kind)
 
 
+@task(version="1", cache=True, check_valid="shallow")
+async def anode38(x):
+    """an async task (only used to drive Scheduler._get_cache's async special case; never executed)"""
+    return x
+
+
 def call38(spec):
     opts = dict(spec[4]) if len(spec) > 4 and spec[4] else {}
     t = node38
